@@ -129,9 +129,13 @@ def impl_comment(s):
     return guarded(f)
 
 
-def impl_name(s, row_type="table"):
+def impl_name(s, row_type="table", may_end=False):
     def f():
-        n, r = MasterSchemaRow._get_master_schema_row_name_and_remaining_sql(row_type, "n", "sql", s)
+        if may_end:
+            # (the module name of a virtual table may be the last thing in the statement: repair of C07-22)
+            n, r = MasterSchemaRow._get_master_schema_row_name_and_remaining_sql(row_type, "n", "sql", s, name_may_end_statement=True)
+        else:
+            n, r = MasterSchemaRow._get_master_schema_row_name_and_remaining_sql(row_type, "n", "sql", s)
         return f"ok {hx(n.encode('utf-8'))} {hx(r.encode('utf-8'))}"
     return guarded(f)
 
@@ -405,7 +409,10 @@ def scalar_ops(ctx):
     for _ in range(n // 2):
         s = mutate(r, r.choice(SEED_NAME), r.choice([0, 1, 2]))
         # (the same function reads table names and index names; the row type only selects the wording of its errors)
-        cases.append((f"ddl.name {hx(s.encode())}", impl_name(s, r.choice(["table", "table", "index"]))))
+        if r.random() < 0.3:
+            cases.append((f"ddl.name {hx(s.encode())} end", impl_name(s, "table", may_end=True)))
+        else:
+            cases.append((f"ddl.name {hx(s.encode())}", impl_name(s, r.choice(["table", "table", "index"]))))
     ctx.differential(cases, "ddl.name")
     cases = []
     for _ in range(n * 2):
@@ -1115,8 +1122,6 @@ MATCHERS = {
     "c07_empty_table_name": lambda f: _only(f, ("rejected",), ["table-ident:empty"], ["table-quote:"]) or R.MATCHERS["c07_rows_empty_name"](f),
     "c07_ident_whitespace": (lambda f: _only(f, _ANYKIND, ["ident:whitespace"]) or _only(f, _ANYKIND, ["table-ident:whitespace"])
                              or R.MATCHERS["c07_rows_ident_whitespace"](f)),
-    # the rows that are not ordinary tables (c07rows.py): C07-20, C07-21, C07-22
-    "c07_index_comment_around_on": R.MATCHERS["c07_index_comment_around_on"],
-    "c07_index_unterminated_trailing_comment": R.MATCHERS["c07_index_unterminated_trailing_comment"],
-    "c07_virtual_no_arguments": R.MATCHERS["c07_virtual_no_arguments"],
+    # (C07-20, C07-21, C07-22 - comments around ON of CREATE INDEX, a trailing comment ended by the end of the statement,
+    # a virtual table without argument list - are repaired: their witnesses stay in corpus/C07 and in c07rows.FIXED_REPAIRED)
 }
